@@ -1,6 +1,7 @@
 package main
 
 import (
+	"bytes"
 	"golang.org/x/sys/unix"
 	"runtime"
 	"errors"
@@ -359,6 +360,8 @@ func init() {
 					packenvBigDir(c, op)
 				} else if strings.HasPrefix(op, "packenv-repack-edit ") {
 					packenvRepackEdit(c, op)
+				} else if strings.HasPrefix(op, "packenv-concurrent-distinct ") {
+					packenvConcurrentDistinct(c, op)
 				}
 			}
 			return
@@ -366,7 +369,126 @@ func init() {
 		packenvBigDir(c, "packenv-bigdir 5000")
 		packenvRepackEdit(c, "packenv-repack-edit tar")
 		packenvRepackEdit(c, "packenv-repack-edit zip")
+		packenvConcurrentDistinct(c, "packenv-concurrent-distinct tar")
+		packenvConcurrentDistinct(c, "packenv-concurrent-distinct zip")
 	}
+}
+
+// packenvConcurrentDistinct: eight trees that differ only in the bytes of one file, packed at the same time in one
+// process (what stitch.PackMulti does for a formula with several outputs), many rounds: every tree gets the id it gets
+// alone (C01), and no two of them the same id (C04). Recipe: "packenv-concurrent-distinct <tar|zip>".
+func packenvConcurrentDistinct(c *Ctx, op string) {
+	fmtName := strings.Fields(op)[1]
+	caseCounter++
+	base := filepath.Join(c.Work, fmt.Sprintf("pcd%d", caseCounter))
+	defer rmrf(base)
+	const n = 8
+	t := time.Unix(1.3e9, 0)
+	fn := funcsFor(fmtName)
+	pf := api.MustParseFilesetPackFilter(losslessPackStr)
+	pack := func(dir string) string {
+		id, err, pan := safeCall(func() (api.WareID, error) {
+			return fn.pack(context.Background(), api.PackType(fmtName), dir, pf, "", rio.Monitor{})
+		})
+		return resTok(id, err, pan)
+	}
+	var dirs, solo [n]string
+	for i := 0; i < n; i++ {
+		dirs[i] = filepath.Join(base, fmt.Sprintf("t%d", i))
+		os.MkdirAll(dirs[i], 0755)
+		body := bytes.Repeat([]byte{byte('A' + i)}, 300000) // many copy chunks per body
+		os.WriteFile(filepath.Join(dirs[i], "data"), body, 0644)
+		os.Chtimes(filepath.Join(dirs[i], "data"), t, t)
+		os.Chtimes(dirs[i], t, t)
+		solo[i] = pack(dirs[i])
+	}
+	c.EmitR(op, "skip", "skip")
+	rounds := 400
+	if c.Tier == "thorough" {
+		rounds = 3000
+	}
+	envReported := false
+	for r := 0; r < rounds; r++ {
+		var got [n]string
+		var wg sync.WaitGroup
+		for i := 0; i < n; i++ {
+			wg.Add(1)
+			go func(i int) {
+				defer wg.Done()
+				got[i] = pack(dirs[i])
+			}(i)
+		}
+		wg.Wait()
+		for i := 0; i < n; i++ {
+			for j := 0; j < i; j++ {
+				if got[i] == got[j] && strings.HasPrefix(got[i], "ok ") {
+					c.PropFail("collision", fmt.Sprintf("round %d: trees %d and %d differ in the bytes of their file, were packed (%s) at the same time and both got %s", r, j, i, fmtName, got[i]), op)
+					return
+				}
+				if got[i] == solo[j] && strings.HasPrefix(got[i], "ok ") {
+					c.PropFail("collision", fmt.Sprintf("round %d: tree %d, packed (%s) next to concurrent packs, got %s — the id of tree %d, whose file has other bytes", r, i, fmtName, got[i], j), op)
+					return
+				}
+			}
+		}
+		for i := 0; i < n && !envReported; i++ {
+			if got[i] != solo[i] {
+				c.PropFail("pack-env", fmt.Sprintf("round %d: tree %d packs (%s) to %s alone and to %s next to seven concurrent packs", r, i, fmtName, solo[i], got[i]), op)
+				envReported = true // (keep going: two trees given one id is the sharper finding)
+			}
+		}
+	}
+	c.H("concurrent-distinct:" + fmtName)
+	c.Distinct(op)
+}
+
+// packenvProcfs: a fileset living on a pseudo-filesystem whose regular files report a size of zero although they have
+// content (procfs), and a byte-identical copy on an ordinary filesystem: packed (zip; flattening filter) they have one
+// id — or the pack fails; it never answers another id. Recipe: "packenv-procfs".
+func packenvProcfs(c *Ctx, op string) {
+	caseCounter++
+	base := filepath.Join(c.Work, fmt.Sprintf("ppf%d", caseCounter))
+	defer rmrf(base)
+	src := "/proc/sys/fs/inotify"
+	ents, err := os.ReadDir(src)
+	if err != nil || len(ents) == 0 {
+		c.EmitR(op, "skip", "skip")
+		return
+	}
+	cp := filepath.Join(base, "copy")
+	os.MkdirAll(cp, 0755)
+	for _, e := range ents {
+		b, e1 := os.ReadFile(filepath.Join(src, e.Name()))
+		st, e2 := os.Stat(filepath.Join(src, e.Name()))
+		if e1 != nil || e2 != nil || !st.Mode().IsRegular() {
+			c.EmitR(op, "skip", "skip")
+			return
+		}
+		os.WriteFile(filepath.Join(cp, e.Name()), b, 0600)
+		os.Chmod(filepath.Join(cp, e.Name()), st.Mode().Perm())
+	}
+	if st, e := os.Stat(src); e == nil {
+		os.Chmod(cp, st.Mode().Perm())
+	}
+	c.EmitR(op, "skip", "skip")
+	for _, fm := range []string{"zip", "tar"} {
+		fn := funcsFor(fm)
+		pack := func(dir string) string {
+			id, err, pan := safeCall(func() (api.WareID, error) {
+				return fn.pack(context.Background(), api.PackType(fm), dir, api.FilesetPackFilter_Flatten, "", rio.Monitor{})
+			})
+			return resTok(id, err, pan)
+		}
+		a, b := pack(src), pack(cp)
+		c.H("procfs:" + fm + ":" + strings.Fields(a)[0])
+		if strings.HasPrefix(a, "ok ") && strings.HasPrefix(b, "ok ") && a != b {
+			c.PropFail("pack-env", fmt.Sprintf("the files of %s pack (%s, flatten) to %s where they are and to %s as a byte-identical copy on an ordinary filesystem", src, fm, a, b), op)
+		}
+		if a == "panic" {
+			c.PropFail("pack-env", "pack of a procfs directory panicked", op)
+		}
+	}
+	c.Distinct(op)
 }
 
 // packenvRepackEdit: one process packs the same tree path twice; between the packs a regular file gets other bytes of
@@ -617,6 +739,8 @@ func packenvEngine(c *Ctx) {
 				packenvCancel(c, op)
 			} else if strings.HasPrefix(op, "packenv-repack-edit ") {
 				packenvRepackEdit(c, op)
+			} else if strings.HasPrefix(op, "packenv-procfs") {
+				packenvProcfs(c, op)
 			} else if strings.HasPrefix(op, "packenv-unreadable ") {
 				packenvUnreadable(c, op)
 			} else if strings.HasPrefix(op, "packenv ") && !strings.Contains(op, " #") {
@@ -633,6 +757,7 @@ func packenvEngine(c *Ctx) {
 	packenvCancel(c, "packenv-cancel zip")
 	packenvRepackEdit(c, "packenv-repack-edit tar")
 	packenvRepackEdit(c, "packenv-repack-edit zip")
+	packenvProcfs(c, "packenv-procfs")
 	packenvUnreadable(c, "packenv-unreadable tar")
 	packenvUnreadable(c, "packenv-unreadable zip")
 	for _, fm := range []string{"tar", "zip"} {
